@@ -10,6 +10,7 @@ Patterns translated: literals (==), None / True / False (is), `A | B`, wildcard,
 positional sub-patterns (isinstance + attribute sub-patterns), sequence patterns (isinstance(Sequence, not str/bytes/bytearray),
 length, element sub-patterns, one starred capture) and mapping patterns (isinstance(Mapping), key presence, value sub-patterns).
   with contextlib.suppress(A, B): <body>   ->   try: <body> / except (A, B): pass
+  dict(a=x, b=y) / dict()  ->  {'a': x, 'b': y} / {}   (when the module never rebinds `dict`)
   _NAME = <literal> at module level, bound once  ->  uses of _NAME inside functions / classes read the literal
   x: T = v  ->  x = v   (annotated assignments outside class bodies; a bare `x: T` becomes `pass`; class-level ones declare record fields)
 
@@ -262,7 +263,37 @@ class _Propagate(ast.NodeTransformer):
         return node
 
 
+class _DictCalls(ast.NodeTransformer):
+    """dict(a=x, b=y) / dict() written with the builtin -> the display {'a': x, 'b': y} / {} (same object, same evaluation order)"""
+
+    def visit_Call(self, node):
+        self.generic_visit(node)
+        if isinstance(node.func, ast.Name) and node.func.id == 'dict' and not node.args and all(k.arg is not None for k in node.keywords):
+            d = ast.Dict(keys=[ast.Constant(value=k.arg) for k in node.keywords], values=[k.value for k in node.keywords])
+            ast.copy_location(d, node)
+            for k_ in d.keys:
+                ast.copy_location(k_, node)
+            return d
+        return node
+
+
+def _rebinds(tree, name):
+    for n in ast.walk(tree):
+        if isinstance(n, ast.Name) and n.id == name and isinstance(n.ctx, (ast.Store, ast.Del)):
+            return True
+        if isinstance(n, ast.arg) and n.arg == name:
+            return True
+        if isinstance(n, ast.alias) and (n.asname or n.name.split('.')[0]) == name:
+            return True
+        if isinstance(n, (ast.FunctionDef, ast.AsyncFunctionDef, ast.ClassDef)) and n.name == name:
+            return True
+    return False
+
+
 def desugar(tree):
+    if any(isinstance(n, ast.Call) and isinstance(n.func, ast.Name) and n.func.id == 'dict' and not n.args for n in ast.walk(tree)) and not _rebinds(tree, 'dict'):
+        tree = _DictCalls().visit(tree)
+        ast.fix_missing_locations(tree)
     consts = _private_literal_constants(tree)
     if consts:
         tree = _Propagate(consts).visit(tree)
